@@ -241,8 +241,14 @@ pub fn rand_real53(rng: &mut Rng) -> u64 {
         0 => *rng.pick(&[1.0, 2.0, 0.5, 90.0, 180.0, 270.0, 1e-3, 1e-9, 1e-6, 45.0, 0.1, 15.999999999999998, 255.99999999999997]),
         1 => rng.range(-360, 360) as f64,
         2 => 0.0,
+        3 => {
+            // the two ends of the range: the lowest hexade [16^-65, 16^-64) and the highest [16^62, 16^63)
+            let p = if rng.bool() { rng.range(-260, -257) } else { rng.range(248, 251) };
+            let frac = match rng.below(3) { 0 => 0, 1 => (1u64 << 52) - 1, _ => rng.u64() & ((1u64 << 52) - 1) };
+            f64::from_bits((rng.below(2) << 63) | (((p + 1023) as u64) << 52) | frac)
+        }
         _ => {
-            let p = rng.range(-256, 251);
+            let p = rng.range(-260, 251);
             let frac = rng.u64() & ((1u64 << 52) - 1);
             f64::from_bits((rng.below(2) << 63) | (((p + 1023) as u64) << 52) | frac)
         }
@@ -746,4 +752,28 @@ pub fn max_payload(l: &NLib) -> usize {
         }
     }
     m
+}
+
+/// A library whose single element carries one record between 32 KiB and the 65534-byte record limit (legal for any writer):
+/// an XY record of 4094..8190 points or a STRING of 32762..65530 bytes. Returns the library and "xy" / "string".
+pub fn big_record_lib(rng: &mut Rng) -> (NLib, &'static str) {
+    let mut ast = NLib { version: 600, dates: [1; 12], name: b"big".to_vec(), units: (encode_ref(1e-3).unwrap(), encode_ref(1e-9).unwrap()), ..Default::default() };
+    let what = rng.below(3);
+    let (elem, name) = if what < 2 {
+        let npts = (*rng.pick(&[4094usize, 4095, 4096, 4097, 6000, 8189, 8190]) + if what == 1 { rng.usize(3) } else { 0 }).min(8190);
+        let mut xy = Vec::with_capacity(npts * 2);
+        for i in 0..npts {
+            xy.push(i as i32 * 3);
+            xy.push(((i * i) % 977) as i32);
+        }
+        let n2 = xy.len();
+        xy[n2 - 2] = xy[0];
+        xy[n2 - 1] = xy[1];
+        (NElem { elflags: None, plex: None, kind: NKind::Boundary { layer: 1, datatype: 0, xy }, props: vec![] }, "xy")
+    } else {
+        let n = *rng.pick(&[32762usize, 32763, 32764, 32765, 32766, 40000, 65528, 65530]);
+        (NElem { elflags: None, plex: None, kind: NKind::Text { layer: 1, texttype: 0, presentation: None, pathtype: None, width: None, strans: None, xy: vec![0, 0], string: vec![b'a' + (n % 26) as u8; n] }, props: vec![] }, "string")
+    };
+    ast.structs.push(NStruct { dates: [1; 12], name: b"s".to_vec(), elems: vec![elem] });
+    (ast, name)
 }
